@@ -252,7 +252,8 @@ MAXNOPS == IF MAXR >= 4 THEN 2 ELSE 1          \* geometry changes before the fi
 Shapes == << << <<0, 0, 2, 2>>, <<2, 0, 3, 1>> >>,                    \* trunk with a branch on its east side
              << <<0, 0, 1, 1>>, <<2, 2, 3, 3>> >>,                    \* two separate squares: no orthogon
              << <<0, 1, 3, 2>>, <<1, 2, 2, 3>>, <<1, 0, 2, 1>> >>,    \* bar with a north and a south branch
-             << <<1, 0, 3, 2>>, <<0, 0, 1, 1>> >> >>                  \* trunk with a branch on its west side
+             << <<1, 0, 3, 2>>, <<0, 0, 1, 1>> >>,                    \* trunk with a branch on its west side
+             << <<0, 0, 2, 2>> >> >>                                  \* a single rectangle: its own trunk
 Loaded(rs) == LET c == CreateStog(rs, [k \in DOMAIN rs |-> NOPOLY]) IN [rects |-> c.rects, roles |-> c.roles, ok |-> c.ok, cur |-> 1]
 Fresh(rs) == [rects |-> rs, roles |-> [k \in DOMAIN rs |-> NOPOLY], ok |-> 0, cur |-> 0]
 Geometry(n) == [m \in DOMAIN n |-> n[m].rects]
@@ -296,7 +297,7 @@ NetStep == /\ pc = "net" /\ ~Ended
               \/ /\ GeoOps < MAXNOPS
                  /\ \E m \in DOMAIN net : MirrorOn(m) /\ ops' = Append(ops, [op |-> "mirror", m |-> m])
               \/ /\ GeoOps < MAXNOPS
-                 /\ \E m \in DOMAIN net : \E s \in {1, 2} : AssignOn(m, Shapes[s]) /\ ops' = Append(ops, [op |-> "assign", m |-> m, rects |-> Shapes[s]])
+                 /\ \E m \in DOMAIN net : \E s \in {1, 2, 5} : AssignOn(m, Shapes[s]) /\ ops' = Append(ops, [op |-> "assign", m |-> m, rects |-> Shapes[s]])
               \/ /\ GeoOps >= 1
                  /\ \E m \in DOMAIN net : RecModOn(m) /\ ops' = Append(ops, [op |-> "rec", m |-> m])
               \/ /\ GeoOps >= 1
